@@ -1,5 +1,6 @@
 import Pcore.Proofs.JsonRead
 import Pcore.Generated.JsonTable
+import Pcore.Generated.PbArms
 /-!
 # C11 — JSON and protobuf transports carry Data exactly
 
@@ -19,7 +20,9 @@ Full statement / proved / missing
                      integer an integer token), same reference indices — for trees that do not use the reserved
                      key `__pref` first in a hash; `C11_pref_collision` shows the excluded case is real
                      (known finding C11-reserved-pref-key).
-* `C11_pb_value`, `C11_pb_stream`, `C11_pb_events` — protobuf round trips.
+* `C11_pb_arms_ok` — the arm table regenerated from `proto/convert.go` satisfies `PBArmsOK` (by `decide`).
+* `C11_pb_value`, `C11_pb_stream`, `C11_pb_events` — protobuf round trips for ANY arm table satisfying `PBArmsOK`;
+                     `C11_impl_pb` instantiates them on the regenerated table.
 * missing: bytes ↔ tokens (encoding/json tokenizer, string escaping, number text) — trusted, exercised by the
   correspondence run which re-tokenizes the emitted bytes (DESIGN.md §5).
 -/
@@ -83,58 +86,103 @@ def NoBines : List (DVal × DVal) → Bool
   | [] => true | (k, v) :: es => NoBin k && NoBin v && NoBines es
 end
 
+/-- side condition on the regenerated arm table: the Data kinds have an arm in `ToPBData` and `FromPBData`,
+    every kind has one in `ConsumePBData` -/
+def PBArmsOK (a : PBArms) : Bool :=
+  [PKind.bool, .flt, .int, .str, .arr, .hsh].all (fun k => a.toPB.contains k && a.fromPB.contains k) &&
+  [PKind.bool, .flt, .int, .str, .arr, .hsh, .bin, .ref].all (fun k => a.consume.contains k)
+
+theorem C11_pb_arms_ok : PBArmsOK pbArms = true := by decide
+
+theorem pbArmsOK_mem {a : PBArms} (h : PBArmsOK a = true) :
+    (PKind.bool ∈ a.toPB ∧ PKind.flt ∈ a.toPB ∧ PKind.int ∈ a.toPB ∧ PKind.str ∈ a.toPB ∧ PKind.arr ∈ a.toPB ∧
+      PKind.hsh ∈ a.toPB) ∧
+    (PKind.bool ∈ a.fromPB ∧ PKind.flt ∈ a.fromPB ∧ PKind.int ∈ a.fromPB ∧ PKind.str ∈ a.fromPB ∧
+      PKind.arr ∈ a.fromPB ∧ PKind.hsh ∈ a.fromPB) ∧
+    (PKind.bool ∈ a.consume ∧ PKind.flt ∈ a.consume ∧ PKind.int ∈ a.consume ∧ PKind.str ∈ a.consume ∧
+      PKind.arr ∈ a.consume ∧ PKind.hsh ∈ a.consume ∧ PKind.bin ∈ a.consume ∧ PKind.ref ∈ a.consume) := by
+  simp [PBArmsOK, List.all_cons] at h
+  obtain ⟨⟨⟨h1, h1'⟩, ⟨h2, h2'⟩, ⟨h3, h3'⟩, ⟨h4, h4'⟩, ⟨h5, h5'⟩, h6, h6'⟩, c1, c2, c3, c4, c5, c6, c7, c8⟩ := h
+  exact ⟨⟨h1, h2, h3, h4, h5, h6⟩, ⟨h1', h2', h3', h4', h5', h6'⟩, c1, c2, c3, c4, c5, c6, c7, c8⟩
+
 mutual
-theorem pb_value : ∀ v : DVal, NoBin v = true → fromPB (toPB v) = v
-  | .undef, _ => rfl | .bool _, _ => rfl | .int _, _ => rfl | .flt _, _ => rfl | .str _, _ => rfl
+theorem pb_value (a : PBArms) (ha : PBArmsOK a = true) : ∀ v : DVal, NoBin v = true → fromPB a (toPB a v) = v
+  | .undef, _ => by simp [toPB, fromPB]
+  | .bool _, _ => by simp [toPB, fromPB, (pbArmsOK_mem ha).1.1, (pbArmsOK_mem ha).2.1.1]
+  | .int _, _ => by simp [toPB, fromPB, (pbArmsOK_mem ha).1.2.2.1, (pbArmsOK_mem ha).2.1.2.2.1]
+  | .flt _, _ => by simp [toPB, fromPB, (pbArmsOK_mem ha).1.2.1, (pbArmsOK_mem ha).2.1.2.1]
+  | .str _, _ => by simp [toPB, fromPB, (pbArmsOK_mem ha).1.2.2.2.1, (pbArmsOK_mem ha).2.1.2.2.2.1]
   | .bin _, h => by simp [NoBin] at h
-  | .arr vs, h => by simp [toPB, fromPB, pb_values vs (by simpa [NoBin] using h)]
-  | .hsh es, h => by simp [toPB, fromPB, pb_entries es (by simpa [NoBin] using h)]
-theorem pb_values : ∀ vs : List DVal, NoBins vs = true → fromPBs (toPBs vs) = vs
+  | .arr vs, h => by
+      simp [toPB, fromPB, (pbArmsOK_mem ha).1.2.2.2.2.1, (pbArmsOK_mem ha).2.1.2.2.2.2.1, pb_values a ha vs (by simpa [NoBin] using h)]
+  | .hsh es, h => by
+      simp [toPB, fromPB, (pbArmsOK_mem ha).1.2.2.2.2.2, (pbArmsOK_mem ha).2.1.2.2.2.2.2, pb_entries a ha es (by simpa [NoBin] using h)]
+theorem pb_values (a : PBArms) (ha : PBArmsOK a = true) :
+    ∀ vs : List DVal, NoBins vs = true → fromPBs a (toPBs a vs) = vs
   | [], _ => rfl
   | v :: vs, h => by
       have h' : NoBin v = true ∧ NoBins vs = true := by simpa [NoBins] using h
-      simp [toPBs, fromPBs, pb_value v h'.1, pb_values vs h'.2]
-theorem pb_entries : ∀ es : List (DVal × DVal), NoBines es = true → fromPBes (toPBes es) = es
+      simp [toPBs, fromPBs, pb_value a ha v h'.1, pb_values a ha vs h'.2]
+theorem pb_entries (a : PBArms) (ha : PBArmsOK a = true) :
+    ∀ es : List (DVal × DVal), NoBines es = true → fromPBes a (toPBes a es) = es
   | [], _ => rfl
   | (k, v) :: es, h => by
       have h' : (NoBin k = true ∧ NoBin v = true) ∧ NoBines es = true := by simpa [NoBines] using h
-      simp [toPBes, fromPBes, pb_value k h'.1.1, pb_value v h'.1.2, pb_entries es h'.2]
+      simp [toPBes, fromPBes, pb_value a ha k h'.1.1, pb_value a ha v h'.1.2, pb_entries a ha es h'.2]
 end
 
-/-- `FromPBData(ToPBData(v)) = v` for every Data value (Binary is not Data; `FromPBData` has no Binary arm) -/
-theorem C11_pb_value (v : DVal) (h : NoBin v = true) : fromPB (toPB v) = v := pb_value v h
+/-- `FromPBData(ToPBData(v)) = v` for every Data value, for ANY arm table satisfying `PBArmsOK`
+    (Binary is not Data; on the current tree `FromPBData` has no Binary arm) -/
+theorem C11_pb_value (a : PBArms) (ha : PBArmsOK a = true) (v : DVal) (h : NoBin v = true) :
+    fromPB a (toPB a v) = v := pb_value a ha v h
 
 mutual
 /-- feeding the events of `ConsumePBData(p)` to a `protoConsumer` rebuilds `p` -/
-theorem pb_stream : ∀ p : PB, protoConsume (consumePB p) = some p
-  | .bool _ => rfl | .flt _ => rfl | .int _ => rfl | .str _ => rfl | .undef => rfl | .bin _ => rfl | .ref _ => rfl
-  | .arr vs => by simp [consumePB, protoConsume, pb_streams vs]
+theorem pb_stream (a : PBArms) (ha : PBArmsOK a = true) : ∀ p : PB, protoConsume (consumePB a p) = some p
+  | .bool _ => by simp [consumePB, PB.kind, (pbArmsOK_mem ha).2.2.1, protoConsume]
+  | .flt _ => by simp [consumePB, PB.kind, (pbArmsOK_mem ha).2.2.2.1, protoConsume]
+  | .int _ => by simp [consumePB, PB.kind, (pbArmsOK_mem ha).2.2.2.2.1, protoConsume]
+  | .str _ => by simp [consumePB, PB.kind, (pbArmsOK_mem ha).2.2.2.2.2.1, protoConsume]
+  | .undef => by simp [consumePB, PB.kind, protoConsume]
+  | .bin _ => by simp [consumePB, PB.kind, (pbArmsOK_mem ha).2.2.2.2.2.2.2.2.1, protoConsume]
+  | .ref _ => by simp [consumePB, (pbArmsOK_mem ha).2.2.2.2.2.2.2.2.2, protoConsume]
+  | .arr vs => by simp [consumePB, (pbArmsOK_mem ha).2.2.2.2.2.2.1, protoConsume, pb_streams a ha vs]
   | .hsh es => by
-      have ih := pb_streames es
-      cases h : protoConsumes (consumePBes es) with
+      have ih := pb_streames a ha es
+      cases h : protoConsumes (consumePBes a es) with
       | none => simp [h] at ih
       | some cs =>
         simp only [h, Option.bind_some] at ih
-        simp [consumePB, protoConsume, h, ih]
-theorem pb_streams : ∀ vs : List PB, protoConsumes (consumePBs vs) = some vs
+        simp [consumePB, (pbArmsOK_mem ha).2.2.2.2.2.2.2.1, protoConsume, h, ih]
+theorem pb_streams (a : PBArms) (ha : PBArmsOK a = true) :
+    ∀ vs : List PB, protoConsumes (consumePBs a vs) = some vs
   | [] => rfl
-  | v :: vs => by simp [consumePBs, protoConsumes, pb_stream v, pb_streams vs]
-theorem pb_streames : ∀ es : List (PB × PB), (protoConsumes (consumePBes es)).bind pairUp = some es
+  | v :: vs => by simp [consumePBs, protoConsumes, pb_stream a ha v, pb_streams a ha vs]
+theorem pb_streames (a : PBArms) (ha : PBArmsOK a = true) :
+    ∀ es : List (PB × PB), (protoConsumes (consumePBes a es)).bind pairUp = some es
   | [] => rfl
   | (k, v) :: es => by
-      have ih := pb_streames es
-      cases h : protoConsumes (consumePBes es) with
+      have ih := pb_streames a ha es
+      cases h : protoConsumes (consumePBes a es) with
       | none => simp [h] at ih
       | some cs =>
         simp [h] at ih
-        simp [consumePBes, protoConsumes, pb_stream k, pb_stream v, h, pairUp, ih]
+        simp [consumePBes, protoConsumes, pb_stream a ha k, pb_stream a ha v, h, pairUp, ih]
 end
 
-theorem C11_pb_stream (p : PB) : protoConsume (consumePB p) = some p := pb_stream p
+theorem C11_pb_stream (a : PBArms) (ha : PBArmsOK a = true) (p : PB) : protoConsume (consumePB a p) = some p :=
+  pb_stream a ha p
 
 /-- value → protobuf → event stream → protobuf consumer → value -/
-theorem C11_pb_events (v : DVal) (h : NoBin v = true) :
-    (protoConsume (consumePB (toPB v))).map fromPB = some v := by
-  simp [C11_pb_stream, C11_pb_value v h]
+theorem C11_pb_events (a : PBArms) (ha : PBArmsOK a = true) (v : DVal) (h : NoBin v = true) :
+    (protoConsume (consumePB a (toPB a v))).map (fromPB a) = some v := by
+  simp [C11_pb_stream a ha, C11_pb_value a ha v h]
+
+/-- instantiated on the arm table regenerated from proto/convert.go -/
+theorem C11_impl_pb (v : DVal) (h : NoBin v = true) :
+    fromPB pbArms (toPB pbArms v) = v ∧ (protoConsume (consumePB pbArms (toPB pbArms v))).map (fromPB pbArms) = some v :=
+  ⟨C11_pb_value _ C11_pb_arms_ok v h, C11_pb_events _ C11_pb_arms_ok v h⟩
+
+example : NoBin (.hsh [(.str "a", .arr [.int 1, .flt 0, .undef])]) = true := by decide
 
 end Pcore.Json
